@@ -93,7 +93,7 @@ func refTagName(re *regexp.Regexp, key string) string {
 
 func (c13) Run(e *Env) {
 	e.ProbeDecl("lookup-hit", "lookup-miss", "ip-reused-by-other-pod", "phase-only-update", "deletion-timestamp-update", "label-edit", "annotation-edit", "ip-changed", "ip-unset", "delete", "lookup-before-pod-exists",
-		"host-network-pod", "tag-group-empty-falls-back-to-key", "regex-without-group", "via-ipsink", "racing-lookup", "partition", "tombstone-delete-after-relist", "changed-while-partitioned")
+		"host-network-pod", "tag-group-empty-falls-back-to-key", "regex-without-group", "via-ipsink", "racing-lookup", "partition", "tombstone-delete-after-relist", "changed-while-partitioned", "key-swapped-in-one-update", "two-changes-in-one-race-window")
 	labelRes := []string{"", "^app$", "^(?:app|team/(?P<tag>.+))$", "^tier(?P<tag>.*)$", "^nomatch$", "^team/(.+)$"}
 	annRes := []string{k8s.DefaultAnnotationTagRegex, "", "^gostatsd\\.atlassian\\.com/(?P<tag>.*)$", "^note$", "^(?P<tag>x)?note$"}
 	lr, ar := labelRes[e.Draw(len(labelRes))], annRes[e.Draw(len(annRes))]
@@ -164,8 +164,15 @@ func (c13) Run(e *Env) {
 	ips := []string{"10.8.0.1", "10.8.0.2", "10.8.0.3"}
 	pods := map[string]*c13Pod{}
 	nextPod := 0
-	labelKeys := []string{"app", "team/infra", "tier", "tier-x", "other"}
-	annKeys := []string{k8s.AnnotationPrefix + "svc", k8s.AnnotationPrefix, "note", "xnote", "unrelated"}
+	// "app" and "note" can be a label key and an annotation key (of the same pod or of different pods)
+	labelKeys := []string{"app", "team/infra", "tier", "tier-x", "other", "note"}
+	annKeys := []string{k8s.AnnotationPrefix + "svc", k8s.AnnotationPrefix, "note", "xnote", "unrelated", "app", k8s.AnnotationPrefix + "canary"}
+	val := func(prefix string, n int) string {
+		if e.Chance(1, 6) {
+			return "" // marker labels / annotations without a value
+		}
+		return fmt.Sprintf("%s%d", prefix, e.Draw(n))
+	}
 
 	// what the provider has been able to observe: the state when the link was cut, while it is cut
 	var observed map[string]*c13Pod
@@ -384,10 +391,10 @@ func (c13) Run(e *Env) {
 				e.Probe("host-network-pod")
 			}
 			for i, n := 0, e.Draw(3); i < n; i++ {
-				p.labels[labelKeys[e.Draw(len(labelKeys))]] = fmt.Sprintf("l%d", e.Draw(3))
+				p.labels[labelKeys[e.Draw(len(labelKeys))]] = val("l", 3)
 			}
 			for i, n := 0, e.Draw(3); i < n; i++ {
-				p.annotations[annKeys[e.Draw(len(annKeys))]] = fmt.Sprintf("a%d", e.Draw(3))
+				p.annotations[annKeys[e.Draw(len(annKeys))]] = val("a", 3)
 			}
 			pods[p.ns+"/"+p.name] = p
 			if p.indexable() {
@@ -400,7 +407,7 @@ func (c13) Run(e *Env) {
 			apply(p, "create")
 		case 1:
 			p := pods[names[e.Draw(len(names))]]
-			switch e.Draw(7) {
+			switch e.Draw(8) {
 			case 0:
 				old := p.phase
 				p.phase = []core_v1.PodPhase{core_v1.PodPending, core_v1.PodRunning, core_v1.PodSucceeded, core_v1.PodFailed}[e.Draw(4)]
@@ -419,10 +426,10 @@ func (c13) Run(e *Env) {
 				p.deleting = true
 				e.Probe("deletion-timestamp-update")
 			case 2:
-				p.labels[labelKeys[e.Draw(len(labelKeys))]] = fmt.Sprintf("l%d", e.Draw(5))
+				p.labels[labelKeys[e.Draw(len(labelKeys))]] = val("l", 5)
 				e.Probe("label-edit")
 			case 3:
-				p.annotations[annKeys[e.Draw(len(annKeys))]] = fmt.Sprintf("a%d", e.Draw(5))
+				p.annotations[annKeys[e.Draw(len(annKeys))]] = val("a", 5)
 				e.Probe("annotation-edit")
 			case 4:
 				if !p.hostNetwork {
@@ -448,6 +455,28 @@ func (c13) Run(e *Env) {
 				sort.Strings(ks)
 				if len(ks) > 0 {
 					delete(p.labels, ks[0])
+				}
+			case 7:
+				// one update that removes a key and adds another (same number of keys before and after)
+				m, keys, pre := p.annotations, annKeys, "a"
+				if e.Bool() {
+					m, keys, pre = p.labels, labelKeys, "l"
+				}
+				var ks []string
+				for k := range m {
+					ks = append(ks, k)
+				}
+				sort.Strings(ks)
+				if len(ks) > 0 {
+					delete(m, ks[e.Draw(len(ks))])
+					for i := 0; i < len(keys); i++ {
+						k := keys[(i+e.Draw(len(keys)))%len(keys)]
+						if _, ok := m[k]; !ok {
+							m[k] = val(pre, 5)
+							break
+						}
+					}
+					e.Probe("key-swapped-in-one-update")
 				}
 			}
 			if p.indexable() {
@@ -499,6 +528,19 @@ func (c13) Run(e *Env) {
 							delete(pods, h.ns+"/"+h.name)
 							e.Event("racing delete %s", h.name)
 							apply(h, "delete")
+						}
+					}
+					if e.Bool() {
+						// a second, unrelated indexable pod changes while the lookup is still parked
+						for _, n := range sortedPods() {
+							o := pods[n]
+							if o.indexable() && o.ip != ip {
+								o.labels["app"] = fmt.Sprintf("other%d", step)
+								e.Event("racing update of unrelated %s", o.name)
+								e.Probe("two-changes-in-one-race-window")
+								apply(o, "update")
+								break
+							}
 						}
 					}
 					for _, p := range yg.gate.Parked() {
